@@ -141,7 +141,38 @@ def run_query_case(case):
     return out
 
 
-RUNNERS = {"query": run_query_case}
+def _b2d(b):
+    return {k + 1: v for k, v in enumerate(b) if v != 0}
+
+
+def _d2b(d, nkeys):
+    return [d.get(k, 0) for k in range(1, nkeys + 1)]
+
+
+def run_index_case(case):
+    """Family index (C20): a history of inserts/clears on the real IndexedCache;
+    after every operation the listed lookups are probed with check and retrieve."""
+    nkeys = case["nkeys"]
+    cache = IndexedCache(list(range(1, nkeys + 1)))
+    out = dict(case)
+    out["evs"] = []
+    for op in case["ops"]:
+        if op["op"] == "insert":
+            cache.insert(_b2d(op["b"]), op["o"])
+            out["evs"].append({"op": "insert", "b": op["b"], "o": op["o"]})
+        else:
+            cache.clear()
+            out["evs"].append({"op": "clear"})
+        for lk in case["lookups"]:
+            if any(lk):
+                out["evs"].append({"op": "check", "lk": lk, "res": bool(cache.check(_b2d(lk)))})
+            res = [[_d2b(r, nkeys), v] for r, v in cache.retrieve(_b2d(lk))]
+            out["evs"].append({"op": "retrieve", "lk": lk, "res": res})
+    del out["ops"], out["lookups"]
+    return out
+
+
+RUNNERS = {"query": run_query_case, "index": run_index_case}
 
 
 def run_case(case):
